@@ -43,7 +43,7 @@ def g_unit(r, klass, kind_pool):
         if r.random() < 0.25:  # the same unit with its outer length in a (valid) non-minimal long form
             root = ber.parse(data)
             body = data[root.hdr:]
-            return b"\x30" + ber.length_octets(len(body), r.choice([1, 2, 3, 4, 5])) + body
+            return b"\x30" + ber.length_octets(len(body), r.choice([1, 2, 3, 4, 5, 8, 13, 14, 15, 16, 17, 40, 126])) + body
         return data
     root, nodes = C.nodes_of(data)
     if klass == "overrun":
